@@ -522,6 +522,42 @@ func genEdgeShapes(w *caseWriter, st *pkgStats) int {
 			emit(fmt.Sprintf("config-source-absent-%d-%d", i, j), c, nil)
 		}
 	}
+	// a pattern beside a regular file of the pattern's own name (globbing is on: the pattern means its matches)
+	c = baseConfig("patname")
+	pat := []extraFile{{Path: "src/patx/app[12].conf", Hex: hex.EncodeToString([]byte("literal")), Mode: 0o644, MTime: 1650000400},
+		{Path: "src/patx/app1.conf", Hex: hex.EncodeToString([]byte("one")), Mode: 0o644, MTime: 1650000400},
+		{Path: "src/patx/app2.conf", Hex: hex.EncodeToString([]byte("two")), Mode: 0o644, MTime: 1650000400},
+		{Path: "src/patx/data*", Hex: hex.EncodeToString([]byte("star")), Mode: 0o644, MTime: 1650000400},
+		{Path: "src/patx/dataX", Hex: hex.EncodeToString([]byte("x")), Mode: 0o644, MTime: 1650000400}}
+	c.Contents = files.Contents{{Source: "src/patx/app[12].conf", Destination: "/etc/patx/", Type: files.TypeConfig}, {Source: "src/patx/data*", Destination: "/opt/patx"}}
+	emit("pattern-beside-a-file-of-its-own-name", c, pat)
+	// control characters other than blank, tab and newline in names and link targets (a carriage return, a bell, DEL)
+	c = baseConfig("ctlbytes")
+	c.Contents = files.Contents{{Source: "src/f1", Destination: "/opt/ctl/cr\rname"}, {Source: "src/f2", Destination: "/opt/ctl/bell\x07name"},
+		{Source: "src/f1", Destination: "/opt/ctl/del\x7fname"}, {Source: "/opt/ctl/vt\x0btarget", Destination: "/opt/ctl/link", Type: files.TypeSymlink},
+		{Destination: "/opt/ctl/ff\x0cdir", Type: files.TypeDir}}
+	emit("control-bytes-in-names", c, nil)
+	// destinations spelt with a doubled slash, of every entry type that is not globbed
+	c = baseConfig("dblslash")
+	c.Contents = files.Contents{{Destination: "/var//lib/dbl", Type: files.TypeDir}, {Source: "/usr/bin/x", Destination: "/usr//bin/dbl-link", Type: files.TypeSymlink},
+		{Source: "src/f1", Destination: "/usr//bin/dbl-file"}, {Destination: "/var/log//dbl.log", Type: files.TypeRPMGhost},
+		{Source: "src/f1", Destination: "/usr/share//doc/dbl/README", Type: files.TypeRPMReadme}, {Source: "src/f2", Destination: "/var/lib/dbl/inside"}}
+	emit("doubled-slashes-in-destinations", c, nil)
+	// licence, readme and ghost entries below the documentation directories: each carries exactly its own flag
+	c = baseConfig("docdirs")
+	c.Contents = files.Contents{{Source: "src/f1", Destination: "/usr/share/doc/docdirs/LICENSE", Type: files.TypeRPMLicence},
+		{Source: "src/f1", Destination: "/usr/share/doc/docdirs/README", Type: files.TypeRPMReadme}, {Destination: "/usr/share/info/dir", Type: files.TypeRPMGhost},
+		{Source: "src/f2", Destination: "/usr/share/man/man1/docdirs.1", Type: files.TypeRPMDoc}, {Source: "src/f1", Destination: "/usr/share/doc/docdirs/plain"}}
+	emit("rpm-flags-below-documentation-directories", c, nil)
+	// a symbolic link entry whose target exists on the build host, and one with every file_info field set
+	c = baseConfig("livelink")
+	if wd, err := os.Getwd(); err == nil {
+		c.Contents = files.Contents{{Source: filepath.Join(wd, "src/big.bin"), Destination: "/opt/livelink/to-big", Type: files.TypeSymlink},
+			{Source: "src/f1", Destination: "/opt/livelink/relative-and-there", Type: files.TypeSymlink,
+				FileInfo: &files.ContentFileInfo{Owner: "svc", Group: "svc", Mode: 0o777, MTime: time.Unix(1500000000, 0).UTC()}},
+			{Source: "src/f1", Destination: "/opt/livelink/file"}}
+		emit("symlink-targets-that-exist-on-the-build-host", c, nil)
+	}
 	c = baseConfig("nodate")
 	c.Changelog = "changelog.yaml"
 	c.Contents = files.Contents{{Source: "src/f1", Destination: "/usr/bin/nodate"}}
